@@ -38,6 +38,23 @@ CONSTS = [0, 1, -7, 2.5, -0.001, 1e300, 1e-300, True, False, datetime.datetime(2
           datetime.timedelta(days=1, seconds=5), 123456789012]
 
 
+ARGFORMS = ['-1', '+2', '(A2)', 'A1%', '-B1', '"x"', '"a*"', 'A1+1', 'SUM(A1:A2)', 'TRUE', '1.5', '""', 'A1', '-A1%', '(1+2)*3', '">"&A1', 'Other!A1', 'C9', '1=1', '2*-3']
+ARGTEMPLATES = ['=SUMIF(A1:A2,{x},B1:B2)', '=SUMIF(A1:A2,{x})', '=COUNTIFS(A1:A2,{x})', '=SUMIFS(B1:B2,A1:A2,{x})', '=AVERAGEIFS(B1:B2,A1:A2,{x})', '=IF({x},1,2)',
+                '=IF(1,{x},2)', '=ROUND({x},1)', '=ROUND(2.5,{x})', '=LEFT("abc",{x})', '=MID("abcdef",{x},2)', '=VLOOKUP({x},A1:B2,2,0)', '=INDEX(A1:B2,{x},1)',
+                '=MATCH({x},A1:A2,0)', '=SUM({x},1)', '=MAX({x},A1)', '=IFERROR({x},0)', '=DATE(2020,{x},1)', '=AND({x},TRUE)', '=CONCATENATE({x},"z")',
+                '=EDATE(DATE(2020,1,31),{x})', '=XMATCH({x},A1:A2)', '=SEARCH({x},"abc")', '=RIGHT("abc",{x})', '=VALUE({x})', '=YEAR({x})', '=IFS({x},1,TRUE,2)',
+                '=ROUNDUP({x},0)', '=MIN({x})', '=COUNT({x},A1:A2)', '=DATEDIF(DATE(2020,1,1),DATE(2021,1,1),{x})', '={x}', '=-({x})', '=({x})&"t"', '={x}<3']
+
+
+def argform_recipes():
+    out = []
+    for t in ARGTEMPLATES:
+        for x in ARGFORMS:
+            f = t.replace('{x}', x)
+            out.append({'family': 'argforms', 'titles': ['Main', 'Other'], 'cells': {'A1': 1, 'A2': 2, 'B1': 2.5, 'B2': 'y', 'C1': f}, 'probe': f})
+    return out
+
+
 def nesting(kind, d):
     if kind == 'IF':
         return '=' + 'IF(1,' * d + '1' + ',0)' * d
@@ -161,7 +178,7 @@ def run_workbook(rc, k=[0]):
                     v2 = I.outcome(lambda: e2.get_cell(I.Cell(0, c, r)).value)
                     if repr(v1) != repr(v2) and not (a == 'C1' and 'TODAY' in rc['probe']):
                         fail = fail or 'cell %s: %r from the class object, %r from the written file' % (a, v1, v2)
-                    if v1[0] == 'exc' and v1[1] in ('NameError', 'AttributeError', 'UnboundLocalError', 'RecursionError', 'SyntaxError'):
+                    if v1[0] == 'exc' and v1[1] in ('NameError', 'UnboundLocalError', 'RecursionError', 'SyntaxError'):
                         fail = fail or 'member of cell %s is not evaluable: %s' % (a, v1[1])
                     v = cell_value(rc['cells'][a])
                     if not (isinstance(v, str) and v.startswith('=')) and v1 != ('ok', v) and not (isinstance(v, datetime.time) or isinstance(v, datetime.timedelta)):
@@ -237,15 +254,17 @@ def corpus():
 def run(R, tier):
     R.coverage['rule'] = ('real xlsx workbooks (openpyxl) through Parser.get_translation with the safety check off: 1-3 sheets with unusual titles, constants of every '
                           'type openpyxl delivers, texts with quotes / braces / newlines / non-ASCII, supported formulas, and ONE probe formula per workbook from the '
-                          'families valid / unsupported / malformed and truncated / references (unknown sheets, row 0, beyond the grid, cycles) / random token soups / '
+                          'families valid / unsupported / malformed and truncated / references (unknown sheets, row 0, beyond the grid, cycles) / random token soups / every function with every argument form (signed, bracketed, percent, text, pattern, call, comparison) / '
                           'nesting; outcome = library exception, or source that compiles, loads, reports the titles, has a member per stored cell, returns the '
                           'constants and behaves the same from the written file and from the class object; foreign exceptions, SyntaxError and %d s of wall clock '
                           'are failures; non-trivial = probe not from the valid family or more than one sheet' % LIMIT)
     C.proof_obligations(R, 'theories/Props/C06.v', 'Props.C06', TARGETS)
     if any('Coq build failed' in b for b in R.broken):
         return
-    n = 220 if tier == 'quick' else 3000
+    n = 160 if tier == 'quick' else 3000
     recipes = corpus()
+    af = argform_recipes()
+    recipes += af if tier != 'quick' else R.rng.sample(af, 160)
     while len(recipes) < n + len(corpus()):
         recipes.append(gen_recipe(R.rng))
     cases = [c for c in (make_case(rc) for rc in recipes) if c is not None]
